@@ -1,8 +1,10 @@
 (* C01 — witnesses for the sync-aggregate refinement (Beacon/Refine/BlockSyncRefine.v):
-     sync_aggregate_batching_refuted_state   a concrete altair state + aggregate on which zrnt's batched proposer
-                                             reward gives a different post-state than the spec, although every
-                                             other hypothesis of sync_aggregate_refines_partial holds
-     sync_aggregate_refines_nonvacuous       a state + aggregate satisfying ALL hypotheses of the theorem *)
+     sync_aggregate_batching_refuted_state   a concrete altair state + aggregate on which the PINNED snapshot's batched
+                                             proposer reward gives a different post-state than the spec, although every
+                                             other hypothesis of sync_aggregate_orig_refines_partial holds
+     sync_aggregate_orig_refines_nonvacuous  a state + aggregate satisfying ALL hypotheses of that partial theorem
+     sync_aggregate_refines_nonvacuous       the hypotheses of the unconditional theorem (repaired code) hold on the
+                                             refuting state itself, and there the repaired code returns the spec's balances *)
 From Coq Require Import String.
 From Coq Require Import NArith ZArith Lia List Bool.
 From RecordUpdate Require Import RecordSet.
@@ -52,28 +54,42 @@ Example sync_aggregate_batching_refuted_state :
   /\ get_beacon_proposer_index blk_env st = Some 0
   /\ (sync_pr blk_env st, sync_propr blk_env st) = (31622, 4517)
   /\ option_map balances (process_sync_aggregate blk_env st sw_agg) = Some [0; 32000031622]
-  /\ impl_balances (process_sync_aggregate_impl blk_env (spec_epc blk_env st) st sw_agg) = Some [4517; 32000031622].
+  /\ impl_balances (process_sync_aggregate_orig blk_env (spec_epc blk_env st) st sw_agg) = Some [4517; 32000031622].
 Proof.
   cbv zeta. split; [exact blk_cfg_sane|]. split; [apply sw_epc_ok|]. split; [apply sw_bounds; vm_compute; reflexivity|].
   repeat split; vm_compute; reflexivity.
 Qed.
 
 (* the same block on a proposer that can afford the penalty: all hypotheses hold, and both sides agree *)
-Example sync_aggregate_refines_nonvacuous :
+Example sync_aggregate_orig_refines_nonvacuous :
   let st := sw_state (32 * GWEI_ETH) in
   let epc := spec_epc blk_env st in
   cfg_sane blk_env /\ epc_ok blk_env st epc /\ st_bounds blk_env st /\ 0 < slot st
   /\ N.of_nat (length (vbits (vfield sw_agg 0))) = SYNC_COMMITTEE_SIZE (cfg blk_env)
   /\ N.of_nat (length (sc_pubkeys (current_sync_committee st))) = SYNC_COMMITTEE_SIZE (cfg blk_env)
   /\ (forall p, get_beacon_proposer_index blk_env st = Some p ->
-        p < N.of_nat (length (validators st))
-        /\ ~ sync_bad p (sync_pr blk_env st) (sync_propr blk_env st)
+        ~ sync_bad p (sync_pr blk_env st) (sync_propr blk_env st)
                (combine (be_sync_indices epc) (vbits (vfield sw_agg 0))) (balances st) 0)
-  /\ impl_balances (process_sync_aggregate_impl blk_env epc st sw_agg) = Some [31999972895; 32000031622].
+  /\ impl_balances (process_sync_aggregate_orig blk_env epc st sw_agg) = Some [31999972895; 32000031622].
 Proof.
   cbv zeta. split; [exact blk_cfg_sane|]. split; [apply sw_epc_ok|]. split; [apply sw_bounds; vm_compute; reflexivity|].
   split; [vm_compute; reflexivity|]. split; [vm_compute; reflexivity|]. split; [vm_compute; reflexivity|].
   split; [|vm_compute; reflexivity].
-  intros p Hp. assert (p = 0) by (vm_compute in Hp; congruence). subst p. split; [vm_compute; reflexivity|].
+  intros p Hp. assert (p = 0) by (vm_compute in Hp; congruence). subst p.
   apply sync_bad_needs_poor. vm_compute. discriminate.
+Qed.
+
+(* the repaired code (per-participant proposer reward) on the state that refutes the pinned snapshot *)
+Example sync_aggregate_refines_nonvacuous :
+  let st := sw_state 0 in
+  let epc := spec_epc blk_env st in
+  cfg_sane blk_env /\ epc_ok blk_env st epc /\ st_bounds blk_env st /\ 0 < slot st
+  /\ N.of_nat (length (vbits (vfield sw_agg 0))) = SYNC_COMMITTEE_SIZE (cfg blk_env)
+  /\ N.of_nat (length (sc_pubkeys (current_sync_committee st))) = SYNC_COMMITTEE_SIZE (cfg blk_env)
+  /\ impl_balances (process_sync_aggregate_impl blk_env epc st sw_agg) = Some [0; 32000031622]
+  /\ option_map balances (process_sync_aggregate blk_env st sw_agg) = Some [0; 32000031622].
+Proof.
+  cbv zeta. split; [exact blk_cfg_sane|]. split; [apply sw_epc_ok|]. split; [apply sw_bounds; vm_compute; reflexivity|].
+  split; [vm_compute; reflexivity|]. split; [vm_compute; reflexivity|]. split; [vm_compute; reflexivity|].
+  split; vm_compute; reflexivity.
 Qed.
